@@ -89,7 +89,14 @@ func (d *database[T, O]) startRotationTask() error {
 					defer d.rotationProcessOn.Store(false)
 					t := time.Unix(0, ts)
 					if rt != nil {
-						rt.run(taskCtx, t, d.logger)
+						// ts is a data timestamp. A point dated ahead of the clock must not move
+						// the retention deadline forward, or it would expire segments that are
+						// still younger than the TTL.
+						retentionNow := t
+						if now := d.segmentController.clock.Now(); retentionNow.After(now) {
+							retentionNow = now
+						}
+						rt.run(taskCtx, retentionNow, d.logger)
 					}
 					func() {
 						ss, err := d.segmentController.segments(taskCtx, true) // Ensure segments are open
